@@ -6106,3 +6106,69 @@ _mk_c20("c20_reading", ["read_all", "readlink", "readlink_abs"], "quick")
 _mk_c20("c20_acting_a", ["mkdir_p", "mkfile", "write_all", "remove", "remove_all"], "quick")
 _mk_c20("c20_acting_b", ["symlink", "copyfile"], "quick")
 _mk_c20("c20_checking3", C20_CHECKING + ["read_all", "mkfile", "remove"], "thorough", 3)
+
+
+@job("c10_readlink_nonlink", ["C10", "C12"], "quick", functions=["Memfs::{readlink,readlink_abs} (real MIR)"],
+     bounds="every path text of 1..=3 chars over {'/','a','b','.'} from the tree {/, /a, /a/a -> /b, /a/b, /b} with cwd '/' and '/a'")
+def c10_readlink_nonlink(ctx, prop):
+    t0 = time.time()
+    run = MemRun(ctx, "c10_readlink_nonlink")
+    ex, ob, solver = run.ex, run.ob, run.solver
+    unit = dict(status="pass", failures=[])
+    for cwd in ("/", "/a"):
+        for n in (1, 2, 3):
+            v, cons, g = mem_args(solver, "c10rl_%s_%d" % (cwd.replace("/", "r"), n), ["path"], n, n)
+
+            def on_done(st, results, inner, i, cwd=cwd, g=g):
+                cf = lambda extra: text_model(ex, st, g, extra)
+                bad = [r for r in results if r[0] in ("panic", "bound")]
+                if bad:
+                    ob.total += 1
+                    ob.failures.append(dict(kind="panic" if bad[0][0] == "panic" else "bound", cex=cf([]), cwd=cwd, where="Memfs::readlink", desc="C12: readlink panics/loops: %s" % bad[0][1]))
+                    return
+                pa = abs_oracle(ex, st, g["arg0"], T_(cwd), run.tenv)
+                if pa[0] != "ok":
+                    return
+                ref = ref_from_snapshot(ex, st, snapshot_store(ex, st, inner))
+                node = ref_find(ex, st, ref, pa[1])
+                islink = node is not None and node["kind"] == "l"
+                for (name, (rk, rv)) in zip(("readlink", "readlink_abs"), results):
+                    ok = isinstance(rv, Adt) and rv.variant == 0
+                    ob.prove(ex, st, "C10: %s succeeds exactly on a link (fails on a non-link or missing path) (cwd %s)" % (name, cwd), B(ok == islink), cf) or \
+                        ob.failures[-1].update(cwd=cwd, where="Memfs::" + name)
+                    if ok and islink and name == "readlink_abs":
+                        ob.prove(ex, st, "C10: readlink_abs returns the stored absolute target (cwd %s)" % cwd, TP.path_eq_text(ex, st, rv.fields[0].chars, node["alt"]), cf) or \
+                            ob.failures[-1].update(cwd=cwd, where="Memfs::readlink_abs")
+                if len(ob.samples) < 3:
+                    ob.samples.append(dict(cwd=cwd, path=cf([])))
+
+            run.explore(TREE3, cwd, [("readlink", [v[0]]), ("readlink_abs", [v[0]])], cons, on_done)
+    seen = set()
+    for f in ob.failures:
+        if f["kind"] == "bound" or not f.get("cex"):
+            unit["status"], unit["why"] = "inconclusive", f["desc"]
+            continue
+        key = re.sub(r" \(cwd .*", "", f["desc"])
+        if key in seen or len(seen) >= 3:
+            continue
+        seen.add(key)
+        src = MEM_REPLAY_PRELUDE + '''
+#[test]
+fn replay_readlink() {
+    // %s
+    let v = fixture3();
+    v.set_cwd(%s).unwrap();
+    let p = %s;
+    let islink = v.is_symlink(p);
+    assert_eq!(v.readlink(p).is_ok(), islink, "C10: readlink on a non-link must fail (and succeed on a link)");
+    assert_eq!(v.readlink_abs(p).is_ok(), islink, "C10: readlink_abs on a non-link must fail (and succeed on a link)");
+}
+''' % (f["desc"], rs_str(f["cwd"]), rs_str(f["cex"]["arg0"]))
+        r = native_test(src, ctx.logdir, "c10rl_%d" % len(seen))
+        reproduced = r["ran"] and r["failed"] > 0
+        rec = dict(kind=f["kind"], desc='"%s" args=%r' % (f["desc"], f["cex"]), where=f["where"], reproduced=reproduced, replay_outcome=r["out"][-400:])
+        if reproduced:
+            rec["replay"] = save_replay(prop, "c10_readlink_nonlink", src, f["desc"], dict(failed=r["failed"]))
+        unit["failures"].append(rec)
+        unit["status"] = "violation"
+    return finish(unit, ex, solver, ob, t0, dict(models_used="Memfs executed from MIR; reference state in Python"))
